@@ -57,6 +57,8 @@ func kindStmtSeq(c *Ctx, it Item) (string, error) {
 			add("go", x.Call)
 		case *ast.SendStmt:
 			add("send", x)
+		case *ast.BranchStmt:
+			add("branch", x)
 		}
 		return true
 	})
